@@ -120,6 +120,23 @@ func genC07(o *cw) {
 			o.c("selall", d, "/", "-", "descendant-or-self::node()["+s+"]", "", tag+"-pred")
 		}
 	}
+	cds := ctxDocs(o)
+	o.emitCtxRestore(g, cds, "bool", 150*o.tier, false)
+	o.emitCtxRestore(g, cds, "cmp", 150*o.tier, false)
+	// node-set against node-set / number / string on a document where the first nodes have no partner
+	setPaths := []string{"/r/a", "/r/b", "/r/c", "/r/d", "/r/m/n", "a", "b", "c", "d", "m/n", "*", "/r/*"}
+	for i := 0; i < 40*o.tier; i++ {
+		for _, op := range cmpOps {
+			l, r := setPaths[o.r.Intn(len(setPaths))], setPaths[o.r.Intn(len(setPaths))]
+			if op == "=" || op == "!=" {
+				o.c("evalall", cds[2], "/", "-", l+" "+op+" "+r, "", "set-set-doc")
+				o.c("evalall", cds[2], "/", "-", l+" "+op+" '"+o.r.Pick([]string{"7", "n/a", "3", "x"})+"'", "", "set-str-doc")
+			}
+			o.c("evalall", cds[2], "/", "-", l+" "+op+" "+o.r.Pick([]string{"7", "3", "10", "0"}), "", "set-num-doc")
+			o.c("evalall", cds[2], "/", "-", o.r.Pick([]string{"7", "3", "10", "0"})+" "+op+" "+l, "", "num-set-doc")
+			o.c("evalall", cds[2], "/", "-", "count(/r/*["+l+" "+op+" "+o.r.Pick([]string{"7", "3", "10"})+"])", "", "set-num-pred")
+		}
+	}
 	rounds := 12 * o.tier
 	for k := 0; k < rounds; k++ {
 		for _, op := range cmpOps {
@@ -214,6 +231,36 @@ func genC08(o *cw) {
 		if id != "" && o.r.Chance(40) {
 			// string() of the same value; compared only for finite |x| < 10^6 (guard = the numeric case)
 			o.c("eval", dd, "/0", "-", "string("+s+")", "", "tostring", "guard="+id)
+		}
+	}
+	cds := ctxDocs(o)
+	o.emitCtxRestore(g, cds, "arith", 150*o.tier, false)
+	o.emitStatefulArgs(g, cds, "numeric", 25*o.tier)
+	// arithmetic inside predicates over many candidates: operands that depend on the candidate
+	ctxOps := []string{"..", "parent::*", "ancestor::*", ".", "@v", "@k", "b", "n", "count(*)", "count(../*)", "string-length(.)"}
+	for i := 0; i < 120*o.tier; i++ {
+		a, b := ctxOps[o.r.Intn(len(ctxOps))], ctxOps[o.r.Intn(len(ctxOps))]
+		if o.r.Chance(50) {
+			b = o.r.Pick([]string{"1", "2", "0.5"})
+		}
+		op := o.r.Pick([]string{"+", "-", "*", "div", "mod"})
+		rel := o.r.Pick([]string{">", "<", "=", ">=", "!="})
+		e := a + " " + op + " " + b
+		if o.r.Chance(30) {
+			e = "-" + a + " " + op + " " + b
+		}
+		d := cds[o.r.Intn(len(cds))]
+		o.c("selall", d, "/", "-", "//*["+e+" "+rel+" "+o.r.Pick([]string{"3", "2", "0", "4"})+"]", "", "arith-in-pred")
+		o.c("evalall", d, "/", "-", "sum(//*["+e+" "+rel+" 3])", "", "arith-in-pred")
+		o.c("evalall", d, "/", "-", e, "", "arith-ctx")
+	}
+	// white space around numbers: only XML white space is trimmed
+	for _, ws := range []string{" ", "\t", "\n", "\r", "\f", "\v", "\u00a0", "\u0085", "\u2003", "\u3000", "\u200b"} {
+		w := strings.NewReplacer("\\t", "\t", "\\n", "\n", "\\r", "\r", "\\f", "\f", "\\v", "\v", "\\u00a0", "\u00a0", "\\u0085", "\u0085", "\\u2003", "\u2003", "\\u3000", "\u3000", "\\u200b", "\u200b").Replace(ws)
+		for _, body := range []string{"12", "-1.5", ".5"} {
+			o.c("num", nil, "/", "parse", w+body, "", "number-ws")
+			o.c("num", nil, "/", "parse", body+w, "", "number-ws")
+			o.c("num", nil, "/", "parse", w+body+w+w, "", "number-ws")
 		}
 	}
 	// NaN / infinity propagation, number() of strings and node-sets
@@ -343,6 +390,17 @@ func genC09(o *cw) {
 		o.features(e)
 		o.c("evalall", ds[o.r.Intn(len(ds))], "/", "-", gen.Str(e, both[i%2]), "", "rand")
 	}
+	cds := ctxDocs(o)
+	o.emitCtxRestore(g, cds, "string", 120*o.tier, false)
+	o.emitStatefulArgs(g, cds, "string", 25*o.tier)
+	// translate with repeated characters in the second argument
+	for _, a := range []string{"abcabc", "aabbcc", "bar", ""} {
+		for _, src := range []string{"aba", "aab", "abca", "aa", "bab", "abcabc"} {
+			for _, dst := range []string{"xyz", "x", "", "xy", "xyzw"} {
+				o.c("eval", ds[0], "/", "-", fmt.Sprintf("translate('%s','%s','%s')", a, src, dst), "", "translate-repeat")
+			}
+		}
+	}
 	// substring sweep: strings of length <= 4 x starts x lengths
 	starts := []string{"-3", "-1", "-0.5", "0", "0.4", "0.5", "0.6", "1", "1.4", "1.5", "1.6", "2", "2.5", "3", "4", "5", "100"}
 	strs := []string{"", "a", "ab", "abc", "abcd"}
@@ -459,6 +517,10 @@ func genC14(o *cw) {
 				}
 			}
 			for _, f := range []string{"name", "local-name", "namespace-uri"} {
+				for _, arg := range []string{"(//*)[2]", "(*)[1]", "*/*[1]", "//*[2]", "/*/*", "(//@*)[last()]", "*[last()]", "/*/*/*[1]"} {
+					o.c("evalall", d, "/", "-", f+"("+arg+")", "", f+"(stateful)")
+					o.c("selall", d, "/", "-", "//*["+f+"("+arg+") = "+f+"("+arg+")]", "", f+"(stateful)-pred")
+				}
 				o.c("evalall", d, "/", "-", f+"()", "", f+"()")
 				for _, arg := range []string{"*", "@*", "//b:book", "//x:book", "nonexist", "//@*", "//text()", "..", "//*[2]", "*/*"} {
 					o.c("evalall", d, "/", "-", f+"("+arg+")", "", f+"(set)")
@@ -526,6 +588,18 @@ func genC15(o *cw) {
 					break
 				}
 			}
+		}
+	}
+	for _, pat := range []string{"(", "[a", "a(b|c", "*", "a{2", "(?P<n", "\\"} {
+		for _, f := range []string{"matches(., concat('%s', ''))", "replace(., '%s', 'x')", "matches(string(*), concat('%s', @x))", "replace('abc', concat('%s',''), '$1')", "count(//*[matches(., concat('%s', ''))])"} {
+			emit(fmt.Sprintf(f, pat), "bad-regex-runtime")
+		}
+	}
+	for _, u := range []string{"\u00e9", "x\u20acy", "\u4e2d\u6587", "\u00e9\u00e9\u00e9"} {
+		uu := strings.NewReplacer("\\u00e9", "\u00e9", "\\u20ac", "\u20ac", "\\u4e2d", "\u4e2d", "\\u6587", "\u6587").Replace(u)
+		for _, f := range []string{"translate('abc','abc','%s')", "translate('%s','%s','abc')", "translate('1,5 EUR','EUR,','%s')", "substring('%s', 2, 1)", "substring('%s', 1.5)", "string-length('%s')", "normalize-space(' %s ')", "lower-case('%s')",
+			"contains('%s', 'x')", "substring-before('a%sb', '%s')", "substring-after('a%sb', '%s')", "translate('%s', '%s', 'x')", "concat('%s', '%s')", "starts-with('%s', '%s')", "ends-with('%s','%s')", "replace('%s', '.', '%s')", "matches('%s', '%s')", "string-join(//*, '%s')"} {
+			emit(strings.ReplaceAll(f, "%s", uu), "non-ascii")
 		}
 	}
 	for i := 0; i < 2500*o.tier; i++ {
@@ -874,6 +948,27 @@ func genC06(o *cw) {
 			o.c("compile", nil, "/", "-", s, "", "nest-"+kind)
 		}
 	}
+	// around the builder's limit (chains that the parser handles iteratively)
+	for _, n := range []int{1000, 1020, 1022, 1023, 1024, 1025, 1026, 1100, 2100} {
+		ns := nestings(n)
+		for _, kind := range []string{"path", "dslash", "dslashstar", "plus", "union", "filter", "dots", "dslashpred", "mixedpath"} {
+			o.c("compile", nil, "/", "-", ns[kind], "", "nest1024-"+kind)
+		}
+	}
+	// k closed constructs first, then nesting near the parser's limit: the counters must not drift
+	for _, k := range []int{1, 3, 20, 60} {
+		for _, n := range []int{198, 199, 200, 201, 200 + k - 1, 200 + k, 200 + k + 1} {
+			for _, closed := range []string{"a/(b)", "(1)", "a[1]", "not(1)", "-1", "a/(b, c)"} {
+				var args []string
+				for j := 0; j < k; j++ {
+					args = append(args, closed)
+				}
+				for _, deep := range []string{"paren", "seq", "pred", "func"} {
+					o.c("compile", nil, "/", "-", "concat('x', "+strings.Join(args, ", ")+", "+nestings(n)[deep]+")", "", "drift-"+deep)
+				}
+			}
+		}
+	}
 }
 
 func nestings(n int) map[string]string {
@@ -892,6 +987,10 @@ func nestings(n int) map[string]string {
 		"predopen":  rep("a[", n),
 		"dots":      rep("../", n) + "..",
 		"concat":    rep("concat(1,", n) + "2" + rep(")", n),
+		"dslash":     rep("//a", n),
+		"dslashstar": "a" + rep("//*", n),
+		"dslashpred": rep("//a[1]", n),
+		"mixedpath":  rep("a//b/", n) + "c",
 	}
 }
 
@@ -900,7 +999,9 @@ func nestings(n int) map[string]string {
 func genC04(o *cw) {
 	g := &G{r: o.r, predAxes: allAxes}
 	ds := append(handDocs(o, false)[4:], valueDocs(o)[:3]...)
-	for i := 0; i < 450*o.tier; i++ {
+	ds = append(ds, ctxDocs(o)...)
+	ds = append(ds, fanDocs(o)[:3]...)
+	for i := 0; i < 700*o.tier; i++ {
 		var e gen.Ex
 		switch o.r.Intn(9) {
 		case 0:
@@ -923,6 +1024,14 @@ func genC04(o *cw) {
 			e = gen.Filter{E: gen.Paren{E: gen.Path{Abs: true, Steps: []gen.Step{{Axis: "child", Test: g.test("child"), DSlash: true}}}}, Preds: []gen.Ex{num(1 + g.r.Intn(3))}}
 		default:
 			e = gen.Call{Name: "reverse", Args: []gen.Ex{g.relPath(allAxes, 1, 2, 30)}}
+		}
+		switch o.r.Intn(5) {
+		case 0:
+			// functions and operators over arguments that carry iteration state
+			fs := g.funcsOverArg(g.statefulArg(), []string{"numeric", "string", "name", "bool", "seq"}[o.r.Intn(5)])
+			e = fs[o.r.Intn(len(fs))]
+		case 1:
+			e = g.ctxRestore([]string{"bool", "cmp", "arith", "union", "string"}[o.r.Intn(5)])
 		}
 		o.features(e)
 		s := gen.Str(e, both[i%2])
